@@ -48,10 +48,13 @@ func die(pos token.Pos, format string, a ...interface{}) {
 	os.Exit(2)
 }
 
+// site names a source location by file and enclosing function (not by line: signatures of recorded
+// findings must survive unrelated edits that shift lines).
 func site(pos token.Pos) *ast.BasicLit {
-	p := fset.Position(pos)
-	return &ast.BasicLit{Kind: token.STRING, Value: strconv.Quote(fmt.Sprintf("%s:%d", base, p.Line))}
+	return &ast.BasicLit{Kind: token.STRING, Value: strconv.Quote(fmt.Sprintf("%s:%s", base, curFunc))}
 }
+
+var curFunc = "?"
 
 func call(fn string, args ...ast.Expr) *ast.CallExpr {
 	used = true
@@ -430,6 +433,7 @@ func main() {
 		if !ok || fd.Body == nil {
 			continue
 		}
+		curFunc = fd.Name.Name
 		fd.Body.List = block(fd.Body.List, pointsIn[fd.Name.Name])
 	}
 	// import rewrites
